@@ -177,6 +177,17 @@ def generate(moddir, module, cfg, timeout=900, workers=1, simulate=None):
 
 # ----------------------------------------------------------------------------- traces
 
+def read_ndjson_lenient(path):
+    out = []
+    with open(path) as f:
+        for x in f:
+            try:
+                out.append(json.loads(x))
+            except Exception:
+                break
+    return out
+
+
 def read_ndjson(path):
     with open(path) as f:
         return [json.loads(x) for x in f if x.strip()]
@@ -367,6 +378,26 @@ class Ctx:
         except subprocess.TimeoutExpired:
             raise Infra("driver timeout: " + " ".join(args))
         if p.returncode != 0:
+            # A panic or fatal error raised inside the library (in one of its goroutines, where the
+            # harness cannot recover it) kills the driver.  That is behaviour of the code under
+            # test: it is recorded as a "crash" event at the end of the trace being written, for
+            # which no specification has an action; the remaining scenarios are not run.
+            err = p.stderr
+            m = re.search(r"^(panic: .*|fatal error: .*)$", err, re.M)
+            lib = re.search(r"^github\.com/biogo/hts/[\w/]+\.\S+\(", err, re.M)
+            outs = [args[i + 1] for i, a in enumerate(args[:-1]) if a in ("--out", "--out2") and os.path.exists(args[i + 1])]
+            if m and lib and outs:
+                target = max(outs, key=os.path.getmtime)
+                evs = read_ndjson_lenient(target)
+                if evs:
+                    sc = evs[-1]["sc"]
+                    with open(target, "w") as f:
+                        for e in evs:
+                            f.write(json.dumps(e) + "\n")
+                        f.write(json.dumps({"ev": "crash", "sc": sc, "sig": "crash/" + lib.group(0).rstrip("("),
+                                            "detail": m.group(1)[:200], "frame": lib.group(0).rstrip("(")}) + "\n")
+                    log("driver died inside the library: %s at %s (recorded as crash event, scenario %s)" % (m.group(1)[:80], lib.group(0), sc))
+                    return {"lines": len(evs) + 1, "scenarios": len({e["sc"] for e in evs}), "crashed": True}
             raise Infra("driver failed (%d): %s\n%s" % (p.returncode, " ".join(args), (p.stdout + p.stderr)[-4000:]))
         log("driver %s: %.1fs" % (" ".join(args[:3]), time.time() - t0))
         summ = {}
